@@ -30,6 +30,10 @@ GOALS = {"G0": ("A0",), "G1": ("A1",), "G": ("A0", "A1")}
 def layouts(draw, tier="quick"):
     w = draw(st.integers(1, 5 if tier == "thorough" else 4))
     h = draw(st.integers(1, 4))
+    wide = draw(st.integers(0, 5)) == 0
+    if wide:
+        # corridors with two-digit coordinates (x = 10, 11, ... sort differently as numbers and as text)
+        w, h = draw(st.integers(11, 13)), draw(st.integers(1, 2))
     if w * h < 2:
         w = 2
     cells = [[[] for _ in range(w)] for _ in range(h)]
@@ -42,7 +46,13 @@ def layouts(draw, tier="quick"):
     if nag == 3:
         cells[order[2][0]][order[2][1]].append("A2")
     free = list(order[nag:])
-    nobs = draw(st.integers(0, min(3, len(free))))
+    nobs = draw(st.integers(0, min(3, len(free)))) if not wide else draw(st.integers(3, min(8, len(free))))
+    if wide:
+        # some obstacles right next to the agents, at least one in a two-digit column
+        ags = list(order[:nag])
+        near = sorted(free, key=lambda rc: min(abs(rc[0] - a[0]) + abs(rc[1] - a[1]) for a in ags))
+        far = [rc for rc in free if rc[1] >= 10]
+        free = (far[:1] + [rc for rc in near if rc not in far[:1]])
     for rc in free[:nobs]:
         cells[rc[0]][rc[1]].append("#")
     nongoal_ok = [rc for rc in coords if "#" not in cells[rc[0]][rc[1]]]
